@@ -207,3 +207,46 @@ def MLStructure.asmatrix (S : MLStructure) (data : List Int) : List (Nat × Nat 
     (fun t => t.2.2 ≠ 0)
 
 end Pyiga.ML
+
+/-! ### `utils.kron_partial` -/
+
+namespace Pyiga.ML
+open Pyiga.Index
+
+/-- a sparse integer matrix as scipy reports it: shape and the stored `(i, j, value)` in
+row-major order (what `A.nonzero()` / `A[i,j]` see after canonicalisation). -/
+structure SpMat where
+  m : Nat
+  n : Nat
+  ent : List (Nat × Nat × Int)
+  deriving Repr, DecidableEq
+
+def SpMat.get (A : SpMat) (i j : Nat) : Int :=
+  ((A.ent.find? (fun e => e.1 = i ∧ e.2.1 = j)).map (·.2.2)).getD 0
+
+/-- `MLStructure.from_kronecker(As)` -/
+def fromKronecker (As : List SpMat) : MLStructure :=
+  { bs := As.map (fun A => (A.m, A.n)), bidx := As.map (fun A => A.ent.map (fun e => (e.1, e.2.1))) }
+
+/-- value of the Kronecker product at `(I, J)`: product of the factor entries at the digits -/
+def kronValue (As : List SpMat) (I J : Nat) : Int :=
+  let Ix := fromSeq I (As.map (·.m))
+  let Jx := fromSeq J (As.map (·.n))
+  ((As.zip (Ix.zip Jx)).map (fun (a : SpMat × Nat × Nat) => a.1.get a.2.1 a.2.2)).foldl (· * ·) 1
+
+/-- `kron_partial(As, rows, restrict)` before the COO→CSR conversion: (row, col, value) -/
+def kronPartialRaw (As : List SpMat) (rows : List Nat) (restrict : Bool) : List (Nat × Nat × Int) :=
+  ((fromKronecker As).nonzerosForRows rows).map
+    (fun t => ((if restrict then t.2.2 else t.1), t.2.1, kronValue As t.1 t.2.1))
+
+/-- canonical COO: duplicates summed, sorted row-major, zeros dropped -/
+def canonCOO (ent : List (Nat × Nat × Int)) : List (Nat × Nat × Int) :=
+  let keys := (ent.map (fun t => (t.1, t.2.1))).eraseDups
+  let sorted := keys.mergeSort (fun a b => a.1 < b.1 || (a.1 == b.1 && a.2 ≤ b.2))
+  (sorted.map (fun k => (k.1, k.2,
+      ((ent.filter (fun t => (t.1, t.2.1) = k)).map (·.2.2)).foldl (· + ·) 0))).filter (fun t => t.2.2 ≠ 0)
+
+def kronPartial (As : List SpMat) (rows : List Nat) (restrict : Bool) : List (Nat × Nat × Int) :=
+  canonCOO (kronPartialRaw As rows restrict)
+
+end Pyiga.ML
